@@ -495,6 +495,22 @@ def make_pipeline(funcs):
     return Pipeline(fs)
 
 
+def _op_lists(objs):
+    return [attempt(lambda x=x: x.list()) for x in objs]
+
+
+def operands_kept(what, objs, before):
+    """A combinator enumerates; it must not change what its OPERANDS enumerate (`a.product(b)` merged b's items into `a.items` in place in
+    seeded change C17-s4-A: the product is right, `a.list()` afterwards is not).  Compared: every operand's list() before and after."""
+    out = []
+    for i, (b, n) in enumerate(zip(before, _op_lists(objs))):
+        if ("ok" in b) != ("ok" in n) or ("ok" in b and not eq_dicts(b["ok"], n["ok"])):
+            STATS["operand-changed"] += 1
+            out.append(f"list() of operand {i} yields other combinations after {what} than before "
+                       f"({len(b['ok']) if 'ok' in b else b.get('err')} vs {len(n['ok']) if 'ok' in n else n.get('err')}): the combinator changed its operand")
+    return out
+
+
 def run_impl(case):
     """(observation comparable with the model, failed property clauses, model request)"""
     m, a = case["m"], case["a"]
@@ -524,22 +540,31 @@ def run_impl(case):
     if m == "add":
         lx, ly = attempt(lambda: mk_tree(a["x"]).list()), attempt(lambda: mk_tree(a["y"]).list())
         x, y = mk_tree(a["x"]), mk_tree(a["y"])
+        before = _op_lists([x, y])
         o, lst, bad = observe(x + y)
+        # `MultiSweep.__add__` is `combine`: documented to add the sweep to THIS MultiSweep (in place, returns self) - only a plain Sweep on the
+        # left and the right operand are required to enumerate what they enumerated before
+        from pipefunc.sweep import MultiSweep as _MS
+        keep = [(q, b) for q, b in zip([x, y], before) if not (q is x and isinstance(x, _MS))]
+        bad += operands_kept("x + y", [q for q, _ in keep], [b for _, b in keep])
         if "ok" in lx and "ok" in ly and not (lst is not None and eq_dicts(lst, lx["ok"] + ly["ok"])):
             bad.append("x + y does not yield the concatenation of x and y")
         return o, bad, {"m": "add", "a": {"x": tree_req(a["x"]), "y": tree_req(a["y"])}}
     if m == "product":
         ops = [a["s"], *a["others"]]
         sw = [mk_sweep(x) for x in ops]
+        before = _op_lists(sw)
         p = attempt(lambda: sw[0].product(*sw[1:]))
         req = {"m": "product", "a": {"s": sweep_req(a["s"]), "others": [sweep_req(x) for x in a["others"]]}}
         if "err" in p:
             if product_clause_applies(ops):
                 bad.append(f"product of sweeps with disjoint keys raised {p['err']}")
             bad += product_direct(ops)
+            bad += operands_kept("product", sw, before)
             return p, bad, req
         o, lst, bad = observe(p["ok"])
         bad += product_direct(ops)
+        bad += operands_kept("product", sw, before)
         if product_clause_applies(ops):
             want = product_ref(ops)
             ordered = all(nominal(x) for x in ops)
@@ -552,7 +577,9 @@ def run_impl(case):
     if m == "filtered":
         s = mk_sweep(a["s"])
         ks = list(a["keys"])
+        before = _op_lists([s])
         f = attempt(lambda: s.filtered_sweep(ks))
+        kept = operands_kept("filtered_sweep", [s], before)
         req = {"m": "filtered", "a": {"s": sweep_req(a["s"]), "keys": ks}}
         applies = filtered_clause_applies(a["s"], ks)
         if applies and a["s"].get("derivers") is not None and any(not hashable(c[k]) for c in ref_list(a["s"]) for k in ks):
@@ -566,8 +593,9 @@ def run_impl(case):
         if "err" in f:
             if applies:
                 bad.append(f"filtered_sweep raised {f['err']}")
-            return f, bad, req
+            return f, bad + kept, req
         o, lst, bad = observe(f["ok"])
+        bad += kept
         if applies:
             want = []
             for c in ref_list(a["s"]):
